@@ -189,6 +189,9 @@ static void run_case(const struct h_case * c)
     nkeys = 0; ntabs = 1;
     memset(pool, 0, sizeof(pool));
     ha_reset();
+    /* a case takes milliseconds; a broken library that loops must not hold up the run for
+     * the 20 s that hcommon.h allows (not in --nofork mode, where there is no child) */
+    if (!h_nofork) alarm(5);
     for (i = 0; i < c->nlines; i++) {
         const struct h_line * l = &c->lines[i];
         int a = (int)h_int(l, 1), b = (int)h_int(l, 2);
